@@ -166,6 +166,17 @@ fn post(p: Parsed) {
                 s.update(i);
             }
             let _ = s.estimate();
+            // every register receives a high value (some item hashes there): exercises the exception
+            // bookkeeping of every slot, not only of the slots 600 hashed items happen to reach
+            if s.lg_config_k() <= 12 {
+                let k = 1u32 << s.lg_config_k();
+                for v in [17u8, 40, 63] {
+                    for slot in 0..k {
+                        s.verif_update_with_coupon(((v as u32) << 26) | slot);
+                    }
+                }
+                let _ = s.estimate();
+            }
             let _ = s.serialize();
         }
         Parsed::Theta(c) => {
@@ -560,9 +571,25 @@ pub fn mutate(rng: &mut Rng, corpus: &[Seed], si: usize) -> (Vec<u8>, &'static s
                 break;
             }
             let i = if rng.chance(0.6) { rng.usize(0, (b.len() - 1).min(40)) } else { rng.usize(0, b.len() - 1) };
-            b[i] = *rng.pick(&[0u8, 1, 2, 3, 4, 7, 8, 15, 16, 21, 26, 27, 31, 32, 63, 64, 127, 128, 200, 254, 255]);
+            b[i] = *rng.pick(&[0u8, 1, 2, 3, 4, 7, 8, 15, 16, 21, 26, 27, 31, 32, 63, 64, 127, 128, 200, 240, 254, 255]);
         }
         return (b, "byteset");
+    }
+    if kind < 66 && b.len() >= 16 {
+        // payload words replaced by random words (compressed streams, packed registers, tables): the header
+        // stays valid, so the decoder runs deep into the payload with arbitrary codes
+        for _ in 0..rng.usize(1, 3) {
+            let words = b.len() / 4;
+            let w = rng.usize(2, words - 1);
+            let v = match rng.below(4) {
+                0 => rng.next_u32(),
+                1 => rng.next_u32() | 0x1ff,           // long runs of ones: the rare long codes
+                2 => rng.next_u32() & rng.next_u32(),
+                _ => u32::MAX >> rng.below(32),
+            };
+            b[4 * w..4 * w + 4].copy_from_slice(&v.to_le_bytes());
+        }
+        return (b, "payload-words");
     }
     if kind < 72 {
         let cut = rng.usize(0, b.len());
